@@ -38,8 +38,11 @@ def run_one(tape, opts):
     c.onexc = False
     c.assert_fn = False
     flavour = tape.choice("config", ("testtools", "extended", "none", "stream"), "flavour")
+    runner = lc.draw_runner(tape)
+    if runner != "plain":
+        c.skip_decorators = False     # what @skip does to setUp/tearDown under the Twisted runners is not in any property
     prog = gen_program(tape, c)
-    sim = lc.simulate(prog, flavour)
+    sim = lc.simulate(prog, flavour, runner=runner)
     rr = sim.runs[0]
     lc.oracle_outcome(sim, rr, out)
     m = sim.model
@@ -59,6 +62,7 @@ def run_one(tape, opts):
     out.steps = len(rr.exec_log)
     out.sim_time = float(out.steps)
     out.hhash = lc.history_hash(sim)
+    out.probe("runner:" + runner)
     if opts.get("want_sample"):
         out.sample = lc.sample_of(sim)
     return out
